@@ -207,6 +207,49 @@ theorem src_spline_linear_in_data (mindist : ℝ) (damping : Option ℝ) (sfc : 
   simp only [Gen.vecOf] at key
   rw [key]
 
+theorem spline_predict_cons (fc : List (List PReal)) (md : PReal) (forces : List PReal) (a b : PReal) (as bs : List PReal) :
+    Gen.splinePredict fc md forces [a :: as, b :: bs]
+      = Gen.splinePredict fc md forces [[a], [b]] ++ Gen.splinePredict fc md forces [as, bs] := by
+  unfold Gen.splinePredict
+  simp only [List.getD_cons_zero, List.getD_cons_succ]
+  exact C03.src_predict_numpy_append [a] as [b] bs _ _ md forces rfl
+
+/-- **The whole Spline pipeline is linear in the data at query arrays of every length — about the source as it is now.**  Under the hypotheses of
+    `src_spline_linear_in_data`, for ANY list of query points whose kernel rows are defined, the regenerated `Spline.predict` called with the whole
+    arrays satisfies `predict(a·d₁ + b·d₂) = a·predict(d₁) + b·predict(d₂)` entry by entry (the single-location theorem lifted through the append
+    law of the regenerated `predict_numpy`). -/
+theorem src_spline_linear_in_data_all (mindist : ℝ) (damping : Option ℝ) (sfc : Option (List (List ℝ))) (coords : List (List ℝ))
+    (d₁ d₂ f₁ f₂ f : List ℝ) (w : Option (List ℝ)) (a b : ℝ) (fe fn : List ℝ) (J : List (List ℝ)) (n : Nat) (scale : Fin n → ℝ)
+    (hs : ∀ j, scale j ≠ 0) (hl : d₁.length = d₂.length)
+    (hinj : LS.Injective' (Gen.matOf J n) (Gen.weightsOf w J.length) (damping.getD 0) (fun j => scale j ^ 2))
+    (h₁ : Gen.splineFitSpec mindist damping sfc coords d₁ w [fe, fn] J n scale f₁)
+    (h₂ : Gen.splineFitSpec mindist damping sfc coords d₂ w [fe, fn] J n scale f₂)
+    (hq : Gen.splineFitSpec mindist damping sfc coords (List.zipWith (fun x y => a * x + b * y) d₁ d₂) w [fe, fn] J n scale f)
+    (hfe : fe.length = n) (hfn : fn.length = n) (hf₁ : f₁.length = n) (hf₂ : f₂.length = n) (hf : f.length = n)
+    (pts : List (ℝ × ℝ))
+    (hrows : ∀ p ∈ pts, ∃ row : List ℝ,
+      ((fe.map fin).zip (fn.map fin)).map (fun q => greens (fin p.1 - q.1) (fin p.2 - q.2) (fin mindist)) = row.map fin) :
+    ∃ xs₁ xs₂ : List ℝ, xs₁.length = pts.length ∧ xs₂.length = pts.length ∧
+      Gen.splinePredict [fe.map fin, fn.map fin] (fin mindist) (f₁.map fin) [pts.map (fun p => fin p.1), pts.map (fun p => fin p.2)] = xs₁.map fin ∧
+      Gen.splinePredict [fe.map fin, fn.map fin] (fin mindist) (f₂.map fin) [pts.map (fun p => fin p.1), pts.map (fun p => fin p.2)] = xs₂.map fin ∧
+      Gen.splinePredict [fe.map fin, fn.map fin] (fin mindist) (f.map fin) [pts.map (fun p => fin p.1), pts.map (fun p => fin p.2)]
+        = (List.zipWith (fun x y => a * x + b * y) xs₁ xs₂).map fin := by
+  induction pts with
+  | nil =>
+    refine ⟨[], [], rfl, rfl, ?_, ?_, ?_⟩ <;>
+      · unfold Gen.splinePredict
+        simp only [List.getD_cons_zero, List.getD_cons_succ, List.map_nil, List.zipWith_nil_left]
+        exact C03.predict_numpy_nil _ _ _ _
+  | cons p ps ih =>
+    obtain ⟨row, hrow⟩ := hrows p (List.mem_cons_self)
+    obtain ⟨x₁, x₂, e₁, e₂, e₃⟩ := src_spline_linear_in_data mindist damping sfc coords d₁ d₂ f₁ f₂ f w a b fe fn J n scale hs hl hinj h₁ h₂ hq
+      hfe hfn hf₁ hf₂ hf p.1 p.2 row hrow
+    obtain ⟨xs₁, xs₂, l₁, l₂, i₁, i₂, i₃⟩ := ih (fun q hq' => hrows q (List.mem_cons_of_mem _ hq'))
+    refine ⟨x₁ :: xs₁, x₂ :: xs₂, by simp [l₁], by simp [l₂], ?_, ?_, ?_⟩
+    · simp only [List.map_cons]; rw [spline_predict_cons, e₁, i₁]; rfl
+    · simp only [List.map_cons]; rw [spline_predict_cons, e₂, i₂]; rfl
+    · simp only [List.map_cons, List.zipWith_cons_cons]; rw [spline_predict_cons, e₃, i₃]; rfl
+
 end SplinePipeline
 
 end Verde.C04
